@@ -357,6 +357,22 @@ func produce(what string) ([]byte, error) {
 			return nil, err
 		}
 		return a.PrivateKey, nil
+	case "signdigest": // crypto.SignDigest (`wallet signdigest`)
+		sig, err := crypto.SignDigest(key[:], key[:])
+		if err != nil {
+			return nil, err
+		}
+		return sig[:32], nil
+	case "accountsigndigest": // account.Account.SignDigest
+		a, err := account.NewAccountWithPrivateKey(key[:])
+		if err != nil {
+			return nil, err
+		}
+		sig, err := a.SignDigest(key[:])
+		if err != nil {
+			return nil, err
+		}
+		return sig[:32], nil
 	case "accountsign": // account.Account.Sign
 		a, err := account.NewAccountWithPrivateKey(key[:])
 		if err != nil {
@@ -416,10 +432,10 @@ func ecdsaPub(priv []byte) *crypto.PublicKey {
 // minimum number of bytes of the OS source one use must consume
 var minEntropy = map[string]int{"nonce": 32, "keygen": 32, "ecdsa": 32, "ecies": 48, "keystore": 48,
 	"newaccount": 32, "walletcreate": 80, "walletadd": 80, "accountsign": 32, "txsign": 32,
-	"dposproposal": 32, "dposvote": 32, "dpossign": 32, "dpostx": 32}
+	"dposproposal": 32, "dposvote": 32, "dpossign": 32, "dpostx": 32, "signdigest": 32, "accountsigndigest": 32}
 
 var producers = []string{"nonce", "keygen", "ecdsa", "ecies", "keystore", "newaccount", "walletcreate", "walletadd",
-	"accountsign", "txsign", "dposproposal", "dposvote", "dpossign", "dpostx"}
+	"accountsign", "txsign", "dposproposal", "dposvote", "dpossign", "dpostx", "signdigest", "accountsigndigest"}
 
 // entropyOp: (1) with crypto/rand.Reader replaced by a constant stream, two uses (separated in time and by a
 // re-seeding of the global math/rand generator) must produce the same secret, and a different stream a different
